@@ -1,0 +1,26 @@
+//go:build verif
+
+package index
+
+// Machine-checked contracts for package index, discharged by /verif's slimvc.
+// Comment-only; compiled only with -tags verif.
+
+// The result of the embedded trie lookup and of the user's reader are named by spec functions
+// (naming clauses: both are deterministic, read-only functions of their arguments).
+//@ spec trie_get_found(si *SlimIndex, key string) bool
+//@ spec trie_rangeget_found(si *SlimIndex, key string) bool
+
+//@ func DataReader.Read
+//@   property DEPA
+//@   assume-dep user-supplied reader (interface contract): total, read-only
+
+//@ func (*SlimIndex).Get
+//@   property C12
+//@   opt kinds=post,frame
+//@   requires si != nil
+//@   ensures getid(&si.SlimTrie, key) == -1 ==> result0 == "" && !result1
+
+//@ func (*SlimIndex).RangeGet
+//@   property C12
+//@   opt kinds=post,frame
+//@   requires si != nil
